@@ -5,7 +5,8 @@ set -u
 cd "$(dirname "$0")"
 export GOFLAGS=-mod=mod GOPROXY=off GOSUMDB=off GOTOOLCHAIN=local CGO_ENABLED=1
 REPO=${VERIF_REPO:-/repo}
-exec 9>/verif/.build.lock
+HERE=$(pwd)
+exec 9>$HERE/.build.lock
 flock 9
 # regenerate go.mod from the repo's (same requires, same replaces) on every build
 {
@@ -17,9 +18,10 @@ flock 9
 if ! cmp -s sim/go.mod.new sim/go.mod; then mv sim/go.mod.new sim/go.mod; else rm sim/go.mod.new; fi
 cmp -s "$REPO/go.sum" sim/go.sum || cp "$REPO/go.sum" sim/go.sum
 TAGS=${VERIF_TAGS:-}
-OUT=${VERIF_BIN:-/verif/bin/chainsim}
-if ! (cd sim && go build -tags "$TAGS" -o "$OUT" . ) 2> /verif/.build.err; then
-  cat /verif/.build.err >&2
+OUT=${VERIF_BIN:-$HERE/bin/chainsim}
+mkdir -p $HERE/bin
+if ! (cd sim && go build -tags "$TAGS" -o "$OUT" . ) 2> $HERE/.build.err; then
+  cat $HERE/.build.err >&2
   echo "BUILD-FAILED (machinery or /repo does not compile)" >&2
   exit 2
 fi
